@@ -7,10 +7,10 @@
 (***************************************************************************)
 EXTENDS StreamFamily, Json, TLC
 
-CONSTANTS MaxFullLen, MaxCuts, AltFullLen, AltMaxCuts
+CONSTANTS MaxFullLen, MaxCuts, AltFullLen, AltMaxCuts, CoverDepth
 VARIABLES s, done
 
-Chunkings(bytes) == {SortedSeq(c) : c \in CutSets(Len(bytes), MaxFullLen, MaxCuts)}
+Chunkings(st) == {SortedSeq(c) : c \in CutsFor(st, MaxFullLen, MaxCuts, CoverDepth)}
 \* chunkings replayed (and model checked) under a declared non-UTF-8 charset
 AltChunkings(bytes) == {SortedSeq(c) : c \in CutSets(Len(bytes), AltFullLen, AltMaxCuts)}
 
@@ -22,7 +22,9 @@ Emit ==
   /\ PrintT("SCEN " \o ToJson([mode |-> s.mode,
                                bytes |-> s.bytes,
                                kinds |-> CutKinds(s.mode, s.bytes),
-                               chunkings |-> Chunkings(s.bytes),
+                               rule |-> s.rule,
+                               classes |-> CutClasses(s.mode, s.bytes),
+                               chunkings |-> Chunkings(s),
                                alt |-> AltChunkings(s.bytes),
                                nitems |-> Len(Expected(s.mode, s.bytes)),
                                lastopen |-> LastUnterminated(s.mode, s.bytes)]))
